@@ -29,3 +29,20 @@ Qed.
 Theorem insert_tv cmp N s v : insert_gen cmp (Z.of_nat N) (svec s) (sset_ s) v = out (ss_insert cmp N s v).
 Proof. unfold insert_gen. rewrite isSmall_tv. destruct (ss_small s) eqn:Hs; [apply insert_small_tv; assumption|].
   unfold insert_set_gen, set_ins, ss_insert. rewrite Hs. destruct (set_insert cmp (sset_ s) v) as [[l j] b]. reflexivity. Qed.
+
+(* lookups and erasure by key *)
+Theorem find_tv cmp s k : find_gen cmp (svec s) (sset_ s) k = Z.of_nat (ss_find cmp s k).
+Proof. unfold find_gen, ss_find. rewrite isSmall_tv. destruct (ss_small s); reflexivity. Qed.
+Theorem contains_tv cmp s k : contains_gen cmp (svec s) (sset_ s) k = negb (Nat.eqb (ss_find cmp s k) (ss_size s)).
+Proof. unfold contains_gen, ss_find, ss_size, ss_elems, find_small_z, set_contains, fs_contains. rewrite isSmall_tv. cbv zeta.
+  destruct (ss_small s); [rewrite eqb_nat|]; reflexivity. Qed.
+Theorem erase_key_tv cmp s v :
+  erase_key_gen cmp (svec s) (sset_ s) v =
+  (svec (fst (ss_erase_key cmp s v)), sset_ (fst (ss_erase_key cmp s v)), Z.of_nat (snd (ss_erase_key cmp s v))).
+Proof. unfold erase_key_gen, ss_erase_key, ss_find, ss_size, ss_elems, ss_erase_at. rewrite isSmall_tv. cbv zeta.
+  destruct (ss_small s) eqn:Hs; cbn [negb].
+  - unfold find_small_z. rewrite eqb_nat. destruct (Nat.eqb (find_small cmp (svec s) v) (length (svec s))); [reflexivity|].
+    unfold vec_erase. rewrite Nat2Z.id. cbn [fst snd svec sset_].
+    assert (Es : sset_ s = []) by (unfold ss_small in Hs; destruct (sset_ s); [reflexivity|discriminate]). rewrite Es. reflexivity.
+  - unfold set_erase_key, fs_erase_key. destruct (Nat.eqb (fs_find cmp (sset_ s) v) (length (sset_ s))); reflexivity.
+Qed.
